@@ -196,5 +196,5 @@ def finish(res, case, rolled, executions):
 
 PARTS = [
     Part("resolution", strategy=lambda tier: resolution_cases(tier), run=run_resolution, quick=3000, thorough=100000),
-    Part("rolling", strategy=lambda tier: E.chain_episode_cases(tier, with_etf=True), run=run_rolling, quick=1200, thorough=60000),
+    Part("rolling", strategy=lambda tier: E.chain_episode_cases(tier, with_etf=True), run=run_rolling, quick=2500, thorough=80000),
 ]
